@@ -46,6 +46,14 @@ pub fn bye<S: Src, const NS: usize, const L: usize, const B: usize>(s: &mut S) {
     bye_roundtrip::<S, NS, L, B>(s, &c);
 }
 
+/// Reason containing multi-byte characters (byte length != character count).
+pub fn bye_utf8<S: Src>(s: &mut S) {
+    let reason = Text::<12>::draw_utf8(s, 12);
+    let c = ByeCfg::<1, 12>::draw_with(s, reason);
+    s.assume(c.padding <= 8);
+    bye_roundtrip::<S, 1, 12, 40>(s, &c);
+}
+
 pub fn bye_anypad<S: Src, const L: usize, const B: usize>(s: &mut S) {
     let reason = Text::<L>::draw(s, L);
     let c = ByeCfg::<1, L>::draw_with(s, reason);
@@ -147,6 +155,7 @@ common::register! {
     q_bye_255 = bye_fixed::<_, 255> => 3,
     q_bye_254 = bye_fixed::<_, 254> => 3,
     q_bye_reason_owned = bye_reason_owned => 3,
+    q_bye_utf8 = bye_utf8 => 3,
     q_app = app_q => 2,
     t_bye_31 = bye::<_, 31, 24, 172> => 33,
     t_bye_32 = bye::<_, 32, 24, 176> => 34,
